@@ -1206,6 +1206,26 @@ func c19StripParen(e ast.Expr) ast.Expr {
 //
 // Variables are named by role in the output: recv (receiver), w / req (parameters), target (the local assigned
 // from recv.Lookup(…)), tr, h.
+// c19IsHeaderExpr: the receiver of a `.Clone()` call is evidently an http.Header — the result of a `.Header()`
+// call, a `.Header`/`.Trailer` field, or `http.Header(…)` — and not a transport. (No type information: every other
+// receiver still counts as a possible copy of a transport.)
+func c19IsHeaderExpr(e ast.Expr) bool {
+	switch v := c19StripParen(e).(type) {
+	case *ast.CallExpr:
+		if sel, ok := v.Fun.(*ast.SelectorExpr); ok {
+			if sel.Sel.Name == "Header" && len(v.Args) == 0 {
+				return true
+			}
+			if id, ok := sel.X.(*ast.Ident); ok && id.Name == "http" && sel.Sel.Name == "Header" {
+				return true
+			}
+		}
+	case *ast.SelectorExpr:
+		return v.Sel.Name == "Header" || v.Sel.Name == "Trailer"
+	}
+	return false
+}
+
 func c19ServeHTTP(x *X) {
 	var constructions []string
 	for _, dir := range []string{"proxy", "proxy/gzip", "route", "."} {
@@ -1222,7 +1242,7 @@ func c19ServeHTTP(x *X) {
 							constructions = append(constructions, label+": http.Transport literal")
 						}
 					case *ast.CallExpr:
-						if sel, ok := v.Fun.(*ast.SelectorExpr); ok && sel.Sel.Name == "Clone" && len(v.Args) == 0 {
+						if sel, ok := v.Fun.(*ast.SelectorExpr); ok && sel.Sel.Name == "Clone" && len(v.Args) == 0 && !c19IsHeaderExpr(sel.X) {
 							constructions = append(constructions, label+": .Clone()")
 						}
 					}
@@ -1518,8 +1538,10 @@ func c19ServeHTTP(x *X) {
 // does with the calls it gets. Roles: the writer is the first argument of the `<h>.ServeHTTP(_, req)` call; if
 // it is a local defined as `&T{f: w}` (T a type of package proxy, w ServeHTTP's first parameter), T's
 // WriteHeader is looked at: "every-call-passed-through" when a call `<recv>.f.WriteHeader(<its parameter>)` is
-// a top-level statement of the method and nothing before it can leave the method or skip it (no if / switch /
-// for / return / defer / go / panic before the call, the parameter not reassigned before it).
+// a top-level statement of the method and nothing before it can leave the method or change the code: the
+// statements in front of it (also inside if/switch bodies) contain no return / goto / defer / go / panic / Fatal /
+// Exit, no loop, and no store into the parameter. (Calls of helpers in front of it — e.g. putting headers back
+// before a final status — are not followed; the streams run the method.)
 func c19Writer(x *X) {
 	verdict := "not-found"
 	defer func() { x.defStr("serveHTTPWriterWriteHeader", verdict) }()
@@ -1623,29 +1645,66 @@ func c19Writer(x *X) {
 		return
 	}
 	verdict = "no-pass-through-call"
+	// what a statement in front of the pass-through call could do to it: leave the method, or change the code
+	hazard := func(n ast.Node) string {
+		h := ""
+		ast.Inspect(n, func(m ast.Node) bool {
+			if h != "" {
+				return false
+			}
+			switch v := m.(type) {
+			case *ast.FuncLit:
+				return false
+			case *ast.ReturnStmt:
+				h = "return"
+			case *ast.BranchStmt:
+				if v.Tok == token.GOTO {
+					h = "goto"
+				}
+			case *ast.DeferStmt, *ast.GoStmt:
+				h = "defer-or-go"
+			case *ast.CallExpr:
+				if fn := x.src(v.Fun); fn == "panic" || strings.HasSuffix(fn, ".Fatal") || strings.HasSuffix(fn, ".Fatalf") || strings.HasSuffix(fn, ".Exit") || strings.HasSuffix(fn, ".Goexit") {
+					h = fn
+				}
+			case *ast.AssignStmt:
+				for _, l := range v.Lhs {
+					if x.src(l) == mparams[0] {
+						h = "status-rewritten"
+					}
+				}
+			case *ast.IncDecStmt:
+				if x.src(v.X) == mparams[0] {
+					h = "status-rewritten"
+				}
+			case *ast.UnaryExpr:
+				if v.Op == token.AND && x.src(v.X) == mparams[0] {
+					h = "status-address-taken"
+				}
+			}
+			return true
+		})
+		return h
+	}
 	for _, st := range m.Body.List {
-		switch v := st.(type) {
-		case *ast.ExprStmt:
-			if c, ok := v.X.(*ast.CallExpr); ok {
+		if es, ok := st.(*ast.ExprStmt); ok {
+			if c, ok := es.X.(*ast.CallExpr); ok {
 				if x.src(c.Fun) == mrecv+"."+field+".WriteHeader" && len(c.Args) == 1 && x.src(c.Args[0]) == mparams[0] {
 					verdict = "every-call-passed-through"
 					return
 				}
-				if fn := x.src(c.Fun); fn == "panic" || strings.HasSuffix(fn, ".Fatal") || strings.HasSuffix(fn, ".Exit") {
-					verdict = "may-leave-before-pass-through: " + fn
-					return
-				}
 			}
-		case *ast.AssignStmt:
-			for _, l := range v.Lhs {
-				if x.src(l) == mparams[0] {
-					verdict = "status-rewritten-before-pass-through"
-					return
-				}
-			}
-		case *ast.DeclStmt, *ast.IncDecStmt, *ast.EmptyStmt:
-		default:
-			verdict = "conditional-or-early-exit-before-pass-through"
+		}
+		if _, ok := st.(*ast.ForStmt); ok {
+			verdict = "loop-before-pass-through"
+			return
+		}
+		if _, ok := st.(*ast.RangeStmt); ok {
+			verdict = "loop-before-pass-through"
+			return
+		}
+		if h := hazard(st); h != "" {
+			verdict = "before-pass-through: " + h
 			return
 		}
 	}
